@@ -933,6 +933,68 @@ def gen_thrift(rng, n):
     return cases[:n]
 
 
+# nesting suite: deep chains of EVERY container constructor in EVERY child position, for both parsers.
+# The skipped value is one unknown field of the top-level struct; frame kinds:
+#   L  list<child>   S  set<child>   K  map<child, byte> (child = key)   V  map<byte, child> (child = value)
+#   F  struct { 1: child }
+NEST_KINDS = "LSKVF"
+NEST_TYPE = {"L": T_LIST, "S": T_SET, "K": T_MAP, "V": T_MAP, "F": T_STRUCT}
+
+
+def nest_chain(kinds, fid=15):
+    """compact-protocol bytes of a top-level struct whose only field (id `fid`, unknown to both parsers) is the
+    chain of containers `kinds` (outermost first) around one BYTE; well-formed at every depth"""
+    pre, suf = bytearray(), bytearray()
+    for i, k in enumerate(kinds):
+        t = NEST_TYPE[kinds[i + 1]] if i + 1 < len(kinds) else T_BYTE
+        if k in "LS":
+            pre.append(0x10 | t)                       # one element of type t
+        elif k == "K":
+            pre += bytes([0x01, (t << 4) | T_BYTE])    # one pair: key = child, value = byte
+            suf.append(0x00)
+        elif k == "V":
+            pre += bytes([0x01, (T_BYTE << 4) | t, 0x00])
+        else:
+            pre.append(0x10 | t)                       # field 1 of type t ... STOP
+            suf.append(0x00)
+    head = bytes([(fid << 4) | NEST_TYPE[kinds[0]]]) if fid <= 15 else bytes([NEST_TYPE[kinds[0]]]) + uleb(zz64(fid))
+    return head + bytes(pre) + b"\x07" + bytes(reversed(suf)) + b"\x00"
+
+
+def gen_nesting_suite(rng, tier):
+    cases = []
+    deep = [150000] if tier == "quick" else [150000, 1000000, 3000000]
+    for op in ("thrift_ph", "thrift_fm"):
+        for k in NEST_KINDS:
+            for d in [1, 2, 30, 31, 32, 33, 34, 64, 100, 130, 1000] + deep:
+                cases.append(Case(op, 0, 0, None, nest_chain(k * d), tag="nesting"))
+        # mixed chains: every ordered pair of constructors alternating, and random chains
+        for a in NEST_KINDS:
+            for b in NEST_KINDS:
+                if a != b:
+                    for d in (33, 100):
+                        cases.append(Case(op, 0, 0, None, nest_chain(((a + b) * d)[:d]), tag="nesting"))
+        for _ in range(20 if tier == "quick" else 100):
+            d = rng.choice([31, 32, 33, 34, 40, 100, 120, 1000, 20000, deep[0]])
+            ks = "".join(rng.choice(NEST_KINDS) for _ in range(min(d, 2000)))
+            ks = (ks * (d // len(ks) + 1))[:d]
+            cases.append(Case(op, 0, 0, None, nest_chain(ks, fid=rng.choice([9, 12, 15, 100])), tag="nesting"))
+        # the same chains inside the sub-structs and in the fields the parsers skip on purpose
+        for k in NEST_KINDS:
+            for d in (31, 33, 100, deep[0]):
+                unknown9 = nest_chain(k * d, fid=9)[:-1]                   # field 9 = chain, without the final STOP
+                if op == "thrift_ph":
+                    # data_page_header { 9: chain }   /   data_page_header_v2 { 9: chain }   /   v2 { 8 (statistics): chain }
+                    cases.append(Case(op, 0, 0, None, b"\x15\x00\x15\x00\x15\x00\x2c" + unknown9 + b"\x00\x00", tag="nesting"))
+                    cases.append(Case(op, 0, 0, None, b"\x15\x06\x15\x00\x15\x00\x5c" + unknown9 + b"\x00\x00", tag="nesting"))
+                    cases.append(Case(op, 0, 0, None, b"\x15\x06\x15\x00\x15\x00\x5c" + nest_chain(k * d, fid=8)[:-1] + b"\x00\x00", tag="nesting"))
+                else:
+                    # column_orders (7) / encryption_algorithm (8): skipped by type
+                    cases.append(Case(op, 0, 0, None, b"\x15\x02" + nest_chain(k * d, fid=6), tag="nesting"))
+                    cases.append(Case(op, 0, 0, None, b"\x15\x02" + nest_chain(k * d, fid=7), tag="nesting"))
+    return cases
+
+
 def gen_bitreader(rng, n):
     return [Case("bitreader", rng.randrange(0, 65), 0, None, rb(rng, rng.randrange(0, 40)), tag="random") for _ in range(n)]
 
@@ -1102,13 +1164,12 @@ def run_cases(rep, drv, cases, stats, label=""):
         if k == "UB":
             ubs.append((c, li, d))
         if k == "STATSVIEW":
-            # parquet_parse_page_header returned OK with has_statistics set and a min/max view outside the input:
-            # the three sub-headers share a union, a second sub-header (field 7 / 8) overwrites the pointers that
-            # field 5 borrowed from the input (open finding, reported to the thrift engine)
+            # parquet_parse_page_header returned OK with has_statistics set and a min/max view outside the input
+            # (finding repaired by /repo bc9c026: the sub-headers share a union, a second sub-header overwrote the
+            # pointers that field 5 borrowed from the input)
             stats["statsview"] = stats.get("statsview", 0) + 1
-            rep.violation("thrift_ph: parquet_parse_page_header returns OK with data_page_header.has_statistics = 1 and a "
-                          "statistics min/max pointer outside the input (union overlap with a second sub-header)",
-                          {"case": li, "entry_point": c.op}, key="thrift_ph:union-overlap-statistics-view")
+            stats["violations"].append((c.op, "parquet_parse_page_header returns OK with data_page_header.has_statistics = 1 and a "
+                                              "statistics min/max pointer outside the input", li))
             k = "OK"
         res.append((c, li, k, d, o))
     # UBSan reports: separate bucket; violation only if the ASan-only build faults or misreports as well
@@ -1200,11 +1261,15 @@ def run(tier):
     if corpus:
         run_cases(rep, drv, corpus, stats, "corpus")
         flush_violations(rep, stats)
+    # 1b. the nesting suite (every container constructor in every child position, depths 1 .. 10^5 / 10^6)
+    suite = gen_nesting_suite(random.Random(vlib.SEED * 131 + 7), tier)
+    suite_res = run_cases(rep, drv, suite, stats)
+    flush_violations(rep, stats)
     # 2. generated cases
     total = 300_000 if tier == "quick" else 5_000_000
     chunk = 250_000
     done = 0
-    tie_pool = []
+    tie_pool = [r for r in suite_res if tie_ok(r[0])]
     while done < total:
         n = min(chunk, total - done)
         cases = gen_cases(n, rng)
@@ -1215,7 +1280,7 @@ def run(tier):
         flush_violations(rep, stats)
         if len(rep.violations) >= 5:
             break
-    rep.cov["calls"] = done + len(corpus)
+    rep.cov["calls"] = done + len(corpus) + len(suite)
     rep.cov["by_entry_point"] = stats["by_op"]
     rep.cov["input_distribution"] = stats["by_tag"]
     rep.cov["ub_reports"] = stats["ub"]
@@ -1361,7 +1426,9 @@ def model_tie(rep, pool, tier):
     pick = random.Random(vlib.SEED * 31 + 5)
     for op, items in sorted(byop.items()):
         pick.shuffle(items)
-        chosen += items[:per_op]
+        must = [it for it in items if it[0].tag == "nesting"]            # the nesting suite is always compared
+        rest = [it for it in items if it[0].tag != "nesting"]
+        chosen += must + rest[:per_op]
     jobs = {}
     for item in chosen:
         tl = _tie_line(item[0])
